@@ -219,6 +219,7 @@ class Interp(object):
         self.functions_seen = set()
         self.param_flags = {}           # name -> flags for fresh symbols
         self.alloc_log = []
+        self.paths_conds = {}           # key of a paths(...) atom -> per alternative, the evaluated conditions of its callee paths
         self.while_log = []             # (fq, lineno, log marks before, after) of the symbolic pass over a while body
         self.alias_log = []             # (fq, lineno, updated name, aliased name, stmt text, 'loop'|'line')
         self.rng_instances = 0
@@ -325,18 +326,47 @@ class Interp(object):
             raise AnalysisError("oracle text must be straight-line")
         return self.ev(body[-1].value, states[0].env, ctx)
 
+    def resolve_paths(self, v, cond_nf):
+        """replace `paths(alt1, alt2, ...)` atoms of inlined callees by the one alternative whose own branch conditions do
+        not contradict the branch decisions `cond_nf` of the path the value belongs to"""
+        if isinstance(v, (tuple, list)):
+            return type(v)(self.resolve_paths(x, cond_nf) for x in v)
+        if isinstance(v, dict):
+            return {k: self.resolve_paths(x, cond_nf) for k, x in v.items()}
+        if not isinstance(v, Rat) or not self.paths_conds:
+            return v
+        decided = {}
+        for test, truth in cond_nf:
+            decided[vkey(test)] = truth
+
+        def f(a):
+            if isinstance(a, Fn) and a.name == "paths" and a.key() in self.paths_conds:
+                keep = []
+                for alt, conds_list in zip(a.args, self.paths_conds[a.key()]):
+                    ok_any = False
+                    for cs in conds_list:
+                        if all(decided.get(vkey(t_), tr_) == tr_ for t_, tr_ in cs):
+                            ok_any = True
+                            break
+                    if ok_any:
+                        keep.append(alt)
+                if len(keep) == 1:
+                    return self.resolve_paths(keep[0], cond_nf)
+            return None
+        return v.subst(f)
+
     def paths(self, finfo, args=None, kwargs=None, self_obj=None):
         """list of (conds text, cond_nf, return value) per returning path."""
         out = []
         for s in self.run(finfo, args, kwargs, self_obj):
-            out.append((s.conds, s.cond_nf, None if s.ret is NORET else s.ret))
+            out.append((s.conds, s.cond_nf, None if s.ret is NORET else self.resolve_paths(s.ret, s.cond_nf)))
         return out
 
     def returns(self, finfo, args=None, kwargs=None, self_obj=None):
         """list of (conds, return value); falls-off-the-end paths give None."""
         out = []
         for s in self.run(finfo, args, kwargs, self_obj):
-            out.append((s.conds, None if s.ret is NORET else s.ret))
+            out.append((s.conds, None if s.ret is NORET else self.resolve_paths(s.ret, s.cond_nf)))
         return out
 
     def single(self, finfo, args=None, kwargs=None, self_obj=None):
@@ -399,6 +429,24 @@ class Interp(object):
 
     def st_Expr(self, st, s, ctx):
         if isinstance(st.value, ast.Call):
+            call = st.value
+            outs = [k for k in call.keywords if k.arg == "out" and isinstance(k.value, ast.Name)]
+            if outs:
+                # numpy routine writing its result into out=<name>: evaluate it without the keyword, then the name (and every
+                # other name bound to the same array) holds the result
+                import copy as _copy
+                c2 = _copy.copy(call)
+                c2.keywords = [k for k in call.keywords if k.arg != "out"]
+                v = self.ev(c2, s.env, ctx)
+                tgt = outs[0].value.id
+                self.store_log.append((ctx.finfo.fq, tgt, "out", v, st.lineno, "out=", norm_text(st)))
+                grp = s.env.get("__alias__", {}).get(tgt)
+                s.env[tgt] = v
+                if tgt in ctx.finfo.params:
+                    ctx.mutated[tgt] = v
+                if grp:
+                    self._alias_update(tgt, v, s, ctx, st)
+                return [s]
             self.ev(st.value, s.env, ctx, stmt_call=True)
         return [s]
 
@@ -1133,6 +1181,10 @@ class Interp(object):
                 return Rat.atom(Fn("imag", (o,)))
             if a == "shape":
                 return ShapeOf(o)
+            if a == "ndim":
+                car = sorted(set(x.name for x in o.atoms() if isinstance(x, Sym) and "array" in x.flags))
+                if len(car) == 1:
+                    return Rat.sym("ndim(%s)" % car[0], ("int",))       # same normal form as len(x.shape)
             if a in ("dtype", "size", "ndim", "flat"):
                 return Rat.atom(Fn(a, (o,)))
             at_ = o.single_atom()
@@ -1435,19 +1487,30 @@ class Interp(object):
                 if i < len(params) and params[i] in cctx.mutated and isinstance(a, (ast.Name, ast.Attribute)):
                     st = State(env)
                     self.rebind(a, cctx.mutated[params[i]], st, ctx)
-        vals = []
+        vals, vconds = [], []
         for s in states:
             v = None if s.ret is NORET else s.ret
-            if not any(vkey(v) == vkey(x) for x in vals):
+            hit = [i for i, x in enumerate(vals) if vkey(v) == vkey(x)]
+            if not hit:
                 vals.append(v)
+                vconds.append([s.cond_nf])
+            else:
+                vconds[hit[0]].append(s.cond_nf)
         if not vals:
             return unk("noreturn", finfo.fq)
         if len(vals) == 1:
             return vals[0]
+
+        def mk(alts):
+            # the alternatives of an inlined callee, each with the evaluated conditions of its paths: resolved against the
+            # caller's own branch decisions when the caller's path ends (resolve_paths)
+            at = Fn("paths", tuple(alts))
+            self.paths_conds[at.key()] = [list(c) for c in vconds]
+            return Rat.atom(at)
         if all(isinstance(v, Rat) for v in vals):
-            return Rat.atom(Fn("paths", tuple(vals)))
+            return mk(vals)
         if all(isinstance(v, tuple) and len(v) == len(vals[0]) for v in vals):
-            return tuple(Rat.atom(Fn("paths", tuple(v[i] for v in vals))) if
+            return tuple(mk([v[i] for v in vals]) if
                          len(set(vkey(v[i]) for v in vals)) > 1 else vals[0][i]
                          for i in range(len(vals[0])))
         return unk("paths", finfo.fq)
